@@ -280,41 +280,47 @@ def return_ownership(ctx: Ctx, O: Ownership, rule: str = "C08.copy") -> None:
                   witness="d2 = copy.copy(doc); d2.append(div()); doc.render()")
 
 
-def copy_field_kinds(ctx: Ctx, I: Interp, rule: str = "C08.copy") -> None:
+def copy_field_kinds(ctx: Ctx, I: Interp, rule: str = "C08.copy", cls: str = "Tag", kind: str = "TAG",
+                     fields: Any = (("attrs", "TAGATTRDICT"), ("children", "TAGLIST"))) -> None:
     """copy(tag) is a Tag whose attribute map is still a TagAttrDict and whose child list is still a TagList (so that every
-    operation of the original works on the copy - render()/tagify() hand such copies out)."""
+    operation of the original works on the copy - render()/tagify() hand such copies out); likewise copy(document) still has
+    its content list."""
     prog = ctx.prog
-    where = f"{CORE}:Tag.__copy__"
-    fn = prog.function(CORE, "Tag.__copy__")
+    q = f"{cls}.__copy__"
+    where = f"{CORE}:{q}"
+    if not prog.has_function(CORE, q):
+        return
+    fn = prog.function(CORE, q)
     cfg = Config()
     cfg.opaque_all = True
 
     def mk(run: Any):
-        s = SObj("self", {"TAG"})
+        s = SObj("self", {kind})
         return ({fn.args.args[0].arg: s}, s)
 
     from ..eval_call import is_field_copy
     if is_field_copy(prog, prog.core(), fn):
-        ctx.ok(rule, "Tag.__copy__ copies every instance field with copy(): field classes are preserved")
+        ctx.ok(rule, f"{q} copies every instance field with copy(): field classes are preserved")
         return
     n = 0
-    for l in I.run_function(CORE, "Tag.__copy__", mk, cfg):
+    for l in I.run_function(CORE, q, mk, cfg):
         if l.kind != "return":
             continue
         n += 1
         v = l.value
         meta = v.meta if isinstance(v, SObj) else v.__dict__.get("meta", {}) if isinstance(v, SNew) else {}
         if (meta or {}).get("copy_mode") == "fieldwise":
-            ctx.ok(rule, "Tag.__copy__ copies every instance field with copy(): field classes are preserved")
+            ctx.ok(rule, f"{q} copies every instance field with copy(): field classes are preserved")
             continue
-        for fld, want in (("attrs", "TAGATTRDICT"), ("children", "TAGLIST")):
+        for fld, want in fields:
             fv = getattr(v, "attrs", {}).get(fld)
-            ks = fv.kinds if isinstance(fv, SObj) else ({"TAGLIST"} if isinstance(fv, SNew) and fv.cls_name == "TagList" else {"TAGATTRDICT"} if isinstance(fv, SNew) and fv.cls_name == "TagAttrDict" else None)
+            ks = fv.kinds if isinstance(fv, SObj) else ({"TAGLIST"} if isinstance(fv, SNew) and fv.cls_name == "TagList" else {"TAGATTRDICT"} if isinstance(fv, SNew) and fv.cls_name == "TagAttrDict" else
+                                                        {"DICT"} if isinstance(fv, SDict) else None)
             ctx.check(ks is not None and set(ks) <= {want}, rule, f"the copy's .{fld} is a {want.lower()}", where, f"copy.{fld} = {short(fv)}",
-                      f"Tag.__copy__ gives the copy a `.{fld}` that is {short(fv)}, not an object of the original's class: methods of that class "
+                      f"{q} gives the copy a `.{fld}` that is {short(fv)}, not an object of the original's class: methods of that class "
                       f"(two-argument update(), merging, normalisation) are missing on copies handed out by tagify()/render()",
-                      witness="t = div(class_='a').tagify(); t.add_class('b')")
-    ctx.min_count("Tag.__copy__ paths", n, 1)
+                      witness="t = div(class_='a').tagify(); t.add_class('b')" if cls == "Tag" else "d2 = copy.copy(doc); d2.render()")
+    ctx.min_count(f"{q} paths", n, 1)
 
 
 def tag_tagify_shape(ctx: Ctx, I: Interp, rule: str = "C08.copy", fields: Any = None) -> None:
@@ -776,6 +782,7 @@ def check(ctx: Ctx) -> None:
     return_ownership(ctx, O)
     tag_tagify_shape(ctx, I)
     copy_field_kinds(ctx, I)
+    copy_field_kinds(ctx, I, cls="HTMLDocument", kind="HTMLDOC", fields=(("_content", "TAGLIST"), ("_html_attr_args", "DICT")))
     render_uses_copy(ctx, I)
     delegation(ctx, I)
     equality(ctx, I)
